@@ -1,4 +1,5 @@
 import OvniModel.Emu.MarkEmu
+import OvniModel.Lemmas.MarkRt
 import OvniModel.Props.C08
 
 /-!
@@ -7,10 +8,21 @@ import OvniModel.Props.C08
 Models: `Rt/Mark.lean` (ovni_mark_type / label / push / pop / set guards and the
 metadata they build) and `Emu/MarkEmu.lean` (parse_mark / add_label merging,
 mark channels as a run-time channel group, mark_event).
+
+The merge of the definitions of all threads is characterised against an
+order-free specification (`Consistent`, spelled out by `consistent_iff`):
+`merge_ok_iff` (accepted exactly when all definitions are well formed and agree
+pairwise), `merge_content` (what the accepted table contains),
+`merge_perm_invariant` / `mergeMarks_*` (any reordering of threads or of
+definitions gives the same verdict and the same table up to the order of rows
+and of labels) and `runtime_meta_*` (whatever a thread can build with
+successful `ovni_mark_type` / `ovni_mark_label` calls is accepted on its own;
+several threads are accepted together iff they agree pairwise).  All of these
+hold for lists of any length; the helper lemmas are in `Lemmas/Mark*.lean`.
 -/
 set_option linter.unusedSimpArgs false
 namespace Ovni.Props.C17
-open Ovni.Emu Ovni.Rt.Mark Ovni.Generated
+open Ovni.Emu Ovni.Emu.MarkL Ovni.Rt.Mark Ovni.Generated
 
 /-! ### Runtime guards -/
 
@@ -158,6 +170,269 @@ theorem malformed_refused (tab : List MarkType) (d : MarkIn)
         have : (ct ≠ "single" && ct ≠ "stack") = true := by simp [h1, h2]
         rw [if_pos this]; exact ⟨_, rfl⟩
 
+/-! ### Emulator: the merge against an order-free specification
+
+`Consistent defs` (defined in `Lemmas/MarkMerge.lean` from `WellFormed` and
+`Agree`) makes no reference to the order of `defs`: it only quantifies over
+members and pairs of members. -/
+
+/-- The specification spelled out: every definition has its type in [0,100), a
+    title, channel type "single" or "stack" and no two different labels for
+    one value; two definitions of the same type have the same title and
+    channel type and agree on every value that both label. -/
+theorem consistent_iff (defs : List MarkIn) :
+    Consistent defs ↔
+      (∀ d ∈ defs, 0 ≤ d.type ∧ d.type < 100 ∧ d.title.isSome = true ∧
+          (d.chanType = some "single" ∨ d.chanType = some "stack") ∧
+          (∀ p ∈ d.labels, ∀ q ∈ d.labels, p.1 = q.1 → p.2 = q.2)) ∧
+      (∀ d ∈ defs, ∀ d' ∈ defs, d.type = d'.type →
+          d.title = d'.title ∧ d.chanType = d'.chanType ∧
+          (∀ p ∈ d.labels, ∀ q ∈ d'.labels, p.1 = q.1 → p.2 = q.2)) := Iff.rfl
+
+/-- The specification is symmetric in the order of the definitions: it only
+    depends on which definitions occur. -/
+theorem consistent_order_free {defs defs' : List MarkIn} (h : ∀ d, d ∈ defs' ↔ d ∈ defs) :
+    Consistent defs' ↔ Consistent defs := consistent_congr h
+
+/-- **Accepted exactly when all definitions agree**: `mark_create` over the
+    definitions of all threads (any number, any order) succeeds iff the
+    collection is `Consistent`. -/
+theorem merge_ok_iff (defs : List MarkIn) :
+    (∃ tab, parseMarks [] defs = .ok tab) ↔ Consistent defs := by
+  constructor
+  · rintro ⟨tab, h⟩
+    have := rep_parseMarks rep_nil h
+    rw [List.nil_append] at this
+    exact rep_consistent this
+  · intro hC
+    exact parseMarks_complete rep_nil (by rw [List.nil_append]; exact hC)
+
+/-- **Refused exactly when some definition is malformed or some pair
+    conflicts.** -/
+theorem merge_refused_iff (defs : List MarkIn) :
+    (∃ e, parseMarks [] defs = .error e) ↔
+      (∃ d ∈ defs, ¬ WellFormed d) ∨ (∃ d ∈ defs, ∃ d' ∈ defs, ¬ Agree d d') := by
+  have hok := merge_ok_iff defs
+  constructor
+  · rintro ⟨e, he⟩
+    have hnC : ¬ Consistent defs := by
+      intro hC
+      obtain ⟨tab, ht⟩ := hok.mpr hC
+      rw [he] at ht; cases ht
+    by_cases h1 : ∀ d ∈ defs, WellFormed d
+    · right
+      apply Classical.byContradiction
+      intro hne
+      apply hnC
+      refine ⟨h1, fun d hd d' hd' => Classical.byContradiction fun hna => hne ⟨d, hd, d', hd', hna⟩⟩
+    · left
+      apply Classical.byContradiction
+      intro hne
+      exact h1 fun d hd => Classical.byContradiction fun hnw => hne ⟨d, hd, hnw⟩
+  · intro h
+    have hnC : ¬ Consistent defs := by
+      intro hC
+      rcases h with ⟨d, hd, hn⟩ | ⟨d, hd, d', hd', hn⟩
+      · exact hn (hC.1 d hd)
+      · exact hn (hC.2 d hd d' hd')
+    cases hr : parseMarks [] defs with
+    | error e => exact ⟨e, rfl⟩
+    | ok tab => exact absurd (hok.mp ⟨tab, hr⟩) hnC
+
+/-- **Content of the merged table**: exactly the types that occur in the
+    definitions, one row each; every row carries the common title and channel
+    type; its label set is exactly the union of the labels of the definitions
+    of its type; no value is labelled twice. -/
+theorem merge_content {defs : List MarkIn} {tab : List MarkType} (h : parseMarks [] defs = .ok tab) :
+    (tab.map (·.type)).Nodup ∧
+    (∀ ty, ty ∈ tab.map (·.type) ↔ ∃ d ∈ defs, d.type = ty) ∧
+    (∀ t ∈ tab, ∀ d ∈ defs, d.type = t.type →
+        d.title = some t.title ∧ d.chanType = some (if t.stack then "stack" else "single")) ∧
+    (∀ t ∈ tab, ∀ v l, (v, l) ∈ t.labels ↔ ∃ d ∈ defs, d.type = t.type ∧ (v, l) ∈ d.labels) ∧
+    (∀ t ∈ tab, (t.labels.map (·.1)).Nodup) := by
+  have hR := rep_parseMarks rep_nil h
+  rw [List.nil_append] at hR
+  refine ⟨hR.types_nodup, ?_, ?_, ?_, hR.keys⟩
+  · intro ty
+    constructor
+    · intro hm
+      obtain ⟨t, ht, rfl⟩ := List.mem_map.mp hm
+      exact hR.used t ht
+    · rintro ⟨d, hd, rfl⟩
+      obtain ⟨_, _, t, ht, e, _⟩ := hR.covers d hd
+      exact List.mem_map.mpr ⟨t, ht, e⟩
+  · intro t ht d hd hty
+    obtain ⟨_, _, t', ht', e1, e2, e3⟩ := hR.covers d hd
+    have : t' = t := hR.row_unique ht' ht (e1.trans hty)
+    subst this
+    exact ⟨e2, e3⟩
+  · intro t ht v l
+    exact hR.labels t ht (v, l)
+
+/-- … in particular a value has at most one label in the merged table. -/
+theorem merge_labels_functional {defs : List MarkIn} {tab : List MarkType}
+    (h : parseMarks [] defs = .ok tab) (t : MarkType) (ht : t ∈ tab) (v : Int) (l l' : String)
+    (h1 : (v, l) ∈ t.labels) (h2 : (v, l') ∈ t.labels) : l = l' := by
+  have hk : KeysNodup t.labels := (merge_content h).2.2.2.2 t ht
+  exact hk.agree_self (v, l) h1 (v, l') h2 rfl
+
+/-- Two merged tables are the same up to the order of rows and the order of
+    the labels inside a row. -/
+theorem tabEquiv_iff (tab tab' : List MarkType) :
+    TabEquiv tab tab' ↔
+      (tab.map (·.type)).Perm (tab'.map (·.type)) ∧
+      ∀ t ∈ tab, ∀ t' ∈ tab', t.type = t'.type →
+        t.title = t'.title ∧ t.stack = t'.stack ∧ t.labels.Perm t'.labels := Iff.rfl
+
+/-- same verdict, and the same table up to `TabEquiv` when accepted -/
+def SameOutcome (r r' : Except Err (List MarkType)) : Prop :=
+  ((∃ tab', r' = .ok tab') ↔ (∃ tab, r = .ok tab)) ∧
+  ∀ tab tab', r = .ok tab → r' = .ok tab' → TabEquiv tab tab'
+
+/-- The merge only depends on *which* definitions occur (neither on their
+    order nor on how often one is repeated). -/
+theorem merge_mem_invariant {defs defs' : List MarkIn} (hm : ∀ d, d ∈ defs' ↔ d ∈ defs) :
+    SameOutcome (parseMarks [] defs) (parseMarks [] defs') := by
+  constructor
+  · rw [merge_ok_iff, merge_ok_iff]
+    exact consistent_congr hm
+  · intro tab tab' h h'
+    have hR := rep_parseMarks rep_nil h
+    have hR' := rep_parseMarks rep_nil h'
+    rw [List.nil_append] at hR hR'
+    exact rep_equiv hm hR hR'
+
+/-- **Order independence**: for any permutation `defs'` of `defs` the merge
+    succeeds iff it does for `defs`, and both tables have the same types with
+    the same titles, channel types and label sets. -/
+theorem merge_perm_invariant {defs defs' : List MarkIn} (hp : defs'.Perm defs) :
+    ((∃ tab', parseMarks [] defs' = .ok tab') ↔ (∃ tab, parseMarks [] defs = .ok tab)) ∧
+    ∀ tab tab', parseMarks [] defs = .ok tab → parseMarks [] defs' = .ok tab' →
+      (tab.map (·.type)).Perm (tab'.map (·.type)) ∧
+      ∀ t ∈ tab, ∀ t' ∈ tab', t.type = t'.type →
+        t.title = t'.title ∧ t.stack = t'.stack ∧ t.labels.Perm t'.labels :=
+  merge_mem_invariant fun _ => hp.mem_iff
+
+/-- `mark_create` over per-thread lists: the outcome depends only on the
+    multiset of all definitions of all threads. -/
+theorem mergeMarks_flatten_invariant {ths ths' : List (List MarkIn)}
+    (hp : ths'.flatten.Perm ths.flatten) : SameOutcome (mergeMarks ths) (mergeMarks ths') :=
+  merge_mem_invariant fun _ => hp.mem_iff
+
+/-- any permutation of the threads -/
+theorem mergeMarks_perm_threads {ths ths' : List (List MarkIn)} (hp : ths'.Perm ths) :
+    SameOutcome (mergeMarks ths) (mergeMarks ths') :=
+  mergeMarks_flatten_invariant hp.flatten
+
+/-- any permutation of the definitions inside one thread -/
+theorem mergeMarks_perm_inside (pre post : List (List MarkIn)) {th th' : List MarkIn}
+    (hp : th'.Perm th) :
+    SameOutcome (mergeMarks (pre ++ th :: post)) (mergeMarks (pre ++ th' :: post)) := by
+  apply mergeMarks_flatten_invariant
+  simp only [List.flatten_append, List.flatten_cons]
+  exact (hp.append_right _).append_left _
+
+/-- moving a definition from one thread to another (in either direction,
+    whichever thread comes first) -/
+theorem mergeMarks_move_def (pre mid post : List (List MarkIn)) (a₁ a₂ b₁ b₂ : List MarkIn) (d : MarkIn) :
+    SameOutcome (mergeMarks (pre ++ (a₁ ++ d :: a₂) :: mid ++ (b₁ ++ b₂) :: post))
+                (mergeMarks (pre ++ (a₁ ++ a₂) :: mid ++ (b₁ ++ d :: b₂) :: post)) ∧
+    SameOutcome (mergeMarks (pre ++ (a₁ ++ a₂) :: mid ++ (b₁ ++ d :: b₂) :: post))
+                (mergeMarks (pre ++ (a₁ ++ d :: a₂) :: mid ++ (b₁ ++ b₂) :: post)) := by
+  have key : ∀ x, x ∈ (pre ++ (a₁ ++ a₂) :: mid ++ (b₁ ++ d :: b₂) :: post).flatten ↔
+      x ∈ (pre ++ (a₁ ++ d :: a₂) :: mid ++ (b₁ ++ b₂) :: post).flatten := by
+    intro x
+    simp only [List.flatten_append, List.flatten_cons, List.mem_append, List.mem_cons]
+    constructor
+    · rintro ((h | (h | h) | h) | (h | h | h) | h) <;> simp [h]
+    · rintro ((h | (h | h | h) | h) | (h | h) | h) <;> simp [h]
+  exact ⟨merge_mem_invariant key, merge_mem_invariant fun x => (key x).symm⟩
+
+/-! ### Runtime metadata is accepted by the emulator -/
+
+/-- The conversion from the runtime's `ovni.mark` object to what the emulator
+    reads (`metaToDefs`, `Lemmas/MarkRt.lean`), spelled out. -/
+theorem metaToDefs_eq (m : Meta) :
+    metaToDefs m = m.map fun td =>
+      { type := td.type, title := some td.title,
+        chanType := some (if td.stack then "stack" else "single"), labels := td.labels } := rfl
+
+/-- `Reachable m`: `m` is obtained from the empty object by successful
+    `ovni_mark_type` / `ovni_mark_label` calls, in any number and order. -/
+theorem reachable_iff_calls (m : Meta) :
+    Reachable m ↔ m = [] ∨
+      (∃ m₀ ty flags title, Reachable m₀ ∧ markType m₀ ty flags title = some m) ∨
+      (∃ m₀ ty v l, Reachable m₀ ∧ markLabel m₀ ty v l = some m) := by
+  constructor
+  · intro h
+    cases h with
+    | init => exact Or.inl rfl
+    | type ty flags title h0 hs => exact Or.inr (Or.inl ⟨_, ty, flags, title, h0, hs⟩)
+    | label ty v l h0 hs => exact Or.inr (Or.inr ⟨_, ty, v, l, h0, hs⟩)
+  · rintro (rfl | ⟨m₀, ty, flags, title, h0, hs⟩ | ⟨m₀, ty, v, l, h0, hs⟩)
+    · exact Reachable.init
+    · exact Reachable.type ty flags title h0 hs
+    · exact Reachable.label ty v l h0 hs
+
+/-- Whatever a thread builds with successful calls is consistent on its own … -/
+theorem runtime_meta_consistent {m : Meta} (h : Reachable m) : Consistent (metaToDefs m) := by
+  have hI := h.inv
+  have := (consistent_metas_iff (ms := [m]) (by
+    intro m' hm'; rw [List.mem_singleton.mp hm']; exact hI)).mpr (by
+    intro m₁ h₁ m₂ h₂
+    rw [List.mem_singleton.mp h₁, List.mem_singleton.mp h₂]
+    exact hI.metaAgree_self)
+  simpa using this
+
+/-- … so **a single thread's metadata is always accepted by the emulator**. -/
+theorem runtime_meta_parses {m : Meta} (h : Reachable m) :
+    (∃ tab, parseMarks [] (metaToDefs m) = .ok tab) ∧ (∃ tab, mergeMarks [metaToDefs m] = .ok tab) := by
+  have h1 := (merge_ok_iff _).mpr (runtime_meta_consistent h)
+  refine ⟨h1, ?_⟩
+  unfold mergeMarks
+  simpa using h1
+
+/-- **Several threads**: their metadata are accepted together iff every two of
+    them agree (same title and channel type for a type both define, same label
+    for a value both label). -/
+theorem runtime_metas_merge_iff {ms : List Meta} (h : ∀ m ∈ ms, Reachable m) :
+    (∃ tab, mergeMarks (ms.map metaToDefs) = .ok tab) ↔ ∀ m₁ ∈ ms, ∀ m₂ ∈ ms, MetaAgree m₁ m₂ := by
+  unfold mergeMarks
+  rw [merge_ok_iff]
+  exact consistent_metas_iff fun m hm => (h m hm).inv
+
+/-- `MetaAgree`, spelled out. -/
+theorem metaAgree_iff (m₁ m₂ : Meta) :
+    MetaAgree m₁ m₂ ↔ ∀ a ∈ m₁, ∀ b ∈ m₂, a.type = b.type →
+      a.title = b.title ∧ a.stack = b.stack ∧
+      (∀ p ∈ a.labels, ∀ q ∈ b.labels, p.1 = q.1 → p.2 = q.2) := Iff.rfl
+
+/-- **Two threads** are jointly accepted iff they agree. -/
+theorem runtime_two_threads_iff {m₁ m₂ : Meta} (h₁ : Reachable m₁) (h₂ : Reachable m₂) :
+    (∃ tab, mergeMarks [metaToDefs m₁, metaToDefs m₂] = .ok tab) ↔ MetaAgree m₁ m₂ := by
+  have := runtime_metas_merge_iff (ms := [m₁, m₂]) (by
+    intro m hm
+    rcases List.mem_cons.mp hm with rfl | hm
+    · exact h₁
+    · rw [List.mem_singleton.mp hm]; exact h₂)
+  rw [show [m₁, m₂].map metaToDefs = [metaToDefs m₁, metaToDefs m₂] from rfl] at this
+  rw [this]
+  constructor
+  · intro hA
+    exact hA m₁ List.mem_cons_self m₂ (List.mem_cons_of_mem _ List.mem_cons_self)
+  · intro hA a ha b hb
+    have hsymm : MetaAgree m₂ m₁ := fun x hx y hy hty =>
+      let ⟨e1, e2, e3⟩ := hA y hy x hx hty.symm
+      ⟨e1.symm, e2.symm, e3.symm⟩
+    rcases List.mem_cons.mp ha with rfl | ha
+    · rcases List.mem_cons.mp hb with rfl | hb
+      · exact h₁.inv.metaAgree_self
+      · rw [List.mem_singleton.mp hb]; exact hA
+    · rw [List.mem_singleton.mp ha]
+      rcases List.mem_cons.mp hb with rfl | hb
+      · exact hsymm
+      · rw [List.mem_singleton.mp hb]; exact h₂.inv.metaAgree_self
+
 /-! ### Emulator: mark events -/
 
 /-- `mark_event` guards: wrong payload size, undefined type and value 0 are refused. -/
@@ -241,11 +516,17 @@ theorem markExtra_consistent (tab : List MarkType) : ∀ s ∈ markExtra tab, s.
   · simp only [List.mem_cons, List.mem_nil_iff, or_false] at hs
     subst hs; simp [markSpec]
 
-/-! ### Non-vacuity and order independence on concrete instances -/
+/-! ### Non-vacuity: the hypotheses of the theorems above are satisfiable
+
+(Order independence itself is `merge_perm_invariant` / `mergeMarks_*` above, for
+lists of any length; the instances below only show that the hypotheses are
+inhabited by non-trivial data and that both verdicts occur.) -/
 
 def dA : MarkIn := { type := 3, title := some "Phase", chanType := some "stack", labels := [(1, "init"), (2, "solve")] }
 def dB : MarkIn := { type := 3, title := some "Phase", chanType := some "stack", labels := [(2, "solve"), (5, "io")] }
 def dC : MarkIn := { type := 7, title := some "Iter", chanType := some "single", labels := [] }
+/-- conflicts with `dA` on the label of value 2 -/
+def dX : MarkIn := { dB with labels := [(2, "other")] }
 
 /-- definitions of different threads that agree merge, in either order, to the same label set -/
 example : (mergeMarks [[dA, dC], [dB]]).toOption.map (fun tab => tab.map (fun t => (t.type, t.title, t.stack, t.labels.length))) =
@@ -253,7 +534,39 @@ example : (mergeMarks [[dA, dC], [dB]]).toOption.map (fun tab => tab.map (fun t 
 example : (mergeMarks [[dB], [dC, dA]]).toOption.map (fun tab => tab.map (fun t => (t.type, t.title, t.stack, t.labels.length))) =
     some [(3, "Phase", true, 3), (7, "Iter", false, 0)] := by decide
 /-- a conflicting label is refused in both orders -/
-example : (mergeMarks [[dA], [{ dB with labels := [(2, "other")] }]]).toOption = none := by decide
-example : (mergeMarks [[{ dB with labels := [(2, "other")] }], [dA]]).toOption = none := by decide
+example : (mergeMarks [[dA], [dX]]).toOption = none := by decide
+example : (mergeMarks [[dX], [dA]]).toOption = none := by decide
+
+/-- `Consistent` is decidable and holds of a non-trivial collection (two
+    definitions of one type with overlapping labels, one of another type) … -/
+example : Consistent [dA, dC, dB] := by decide
+/-- … and fails for a label conflict, a title conflict and a malformed definition -/
+example : ¬ Consistent [dA, dX] := by decide
+example : ¬ Consistent [dA, { dA with title := some "Other" }] := by decide
+example : ¬ Consistent [{ dC with type := 100 }] := by decide
+/-- `merge_ok_iff` / `merge_content` / `merge_perm_invariant` apply to it -/
+example : ∃ tab, parseMarks [] [dA, dC, dB] = .ok tab := (merge_ok_iff _).mpr (by decide)
+example : [dB, dA, dC].Perm [dA, dC, dB] :=
+  (List.Perm.swap dA dB [dC]).trans (List.Perm.cons dA (List.Perm.swap dC dB []))
+
+/-- runtime metadata built by successful calls (two types, labels on one) -/
+def mA : Meta :=
+  [{ type := 3, title := "Phase", stack := true, labels := [(1, "init"), (2, "solve")] },
+   { type := 7, title := "Iter", stack := false }]
+def mB : Meta := [{ type := 3, title := "Phase", stack := true, labels := [(2, "solve"), (5, "io")] }]
+def mX : Meta := [{ type := 3, title := "Phase", stack := true, labels := [(2, "other")] }]
+
+example : Reachable mA :=
+  .label (m := [{ type := 3, title := "Phase", stack := true, labels := [(1, "init")] }, { type := 7, title := "Iter", stack := false }]) 3 2 "solve"
+    (.label (m := [{ type := 3, title := "Phase", stack := true }, { type := 7, title := "Iter", stack := false }]) 3 1 "init"
+      (.type (m := [{ type := 3, title := "Phase", stack := true }]) 7 0 "Iter"
+        (.type (m := []) 3 1 "Phase" .init (by decide)) (by decide)) (by decide)) (by decide)
+example : Reachable mB :=
+  .label (m := [{ type := 3, title := "Phase", stack := true, labels := [(2, "solve")] }]) 3 5 "io"
+    (.label (m := [{ type := 3, title := "Phase", stack := true }]) 3 2 "solve"
+      (.type (m := []) 3 1 "Phase" .init (by decide)) (by decide)) (by decide)
+example : metaToDefs mA = [dA, dC] := rfl
+example : MetaAgree mA mB := by decide
+example : ¬ MetaAgree mA mX := by decide
 
 end Ovni.Props.C17
